@@ -29,6 +29,7 @@ def rules(ctx):
     c123(ctx)
     c124(ctx)
     c125(ctx)
+    c126(ctx)
     C09.c096(ctx)
     # "each batch exactly once and whole" under concurrent appends rests on the coalescing queue handing every input to the core once
     from . import C18
@@ -51,17 +52,7 @@ def c12_reader_gates(ctx):
             srcs, _ = P.value_slice(f, P.term_at(f, pt)["args"][1])
             ctx.check("C09.3", f, "alloc resize", any(s["k"] == "call" and s["callee"].endswith("LogIterator::next_header") for s in srcs),
                       "the frame buffer is sized from the header returned by next_header", "frame buffer size does not come from next_header", pt=pt)
-    g = ctx.fn("C09.3", LOG + "LogIterator::next_header")
-    if g:
-        oks = [p for p in P.ok_points(g) if C09._ok_is_some(g, p)]
-        for p in oks:
-            d = [(x["op"], K.src_names(g, x["a"]), K.src_names(g, x["b"]), x["holds"]) for x in K.compare_guards(g, p)]
-            ctx.check("C09.3", g, "bound:header_sz", any(op == "Gt" and "#HEADER_MAX_SIZE" in b and not h for op, a, b, h in d),
-                      "a header is returned only on the failing edge of header_sz > HEADER_MAX_SIZE",
-                      "header_sz is no longer bounded by HEADER_MAX_SIZE before use", pt=p)
-            ctx.check("C09.3", g, "bound:header.size", any(op == "Gt" and ".size" in a and not h and "#TABLE_FULL_SIZE" in b for op, a, b, h in d),
-                      "a header is returned only on the failing edge of header.size > TABLE_FULL_SIZE",
-                      "header.size is no longer bounded by TABLE_FULL_SIZE before it sizes the frame buffer", pt=p)
+    C09.c093_header(ctx)
 
 
 def header_discriminants(fn):
@@ -267,6 +258,36 @@ def c124(ctx):
 
 # ------------------------------------------------------------------------------------------------
 # C12.5 an error leaves no bytes of the failed batch behind: a later poll cannot hand out part of it
+
+def c126(ctx):
+    R = "C12.6"
+    ctx.declare(R, "the reader accepts every frame size the writer can produce: the constant the reader bounds header.size with is at least "
+                   "the constant the writer's batch-size gate admits")
+    w = ctx.fn(R, "sst::log::check_batch_size")
+    r = ctx.fn(R, "sst::log::LogIterator::next_header")
+    if not w or not r:
+        return
+    admit = []
+    for b in P.switch_blocks(w):
+        for s_ in K.cond_sources(w, b.idx):
+            if s_["k"] == "bin" and s_["op"] in ("Gt", "Ge"):
+                c = s_["st"]["rv"]["b"]
+                if c.get("k") == "const" and "v" in c.get("c", {}):
+                    admit.append(c["c"]["v"] - (1 if s_["op"] == "Ge" else 0))
+    ctx.floor(R, "check_batch_size: size gates", len(admit), 1)
+    oks = [p for p in P.ok_points(r) if C09._ok_is_some(r, p)]
+    ctx.floor(R, "next_header: Ok(Some) exits", len(oks), 1)
+    if not admit:
+        return
+    wmax = max(admit)
+    for p in oks:
+        d = [(x["op"], K.src_names(r, x["a"]), K.src_names(r, x["b"]), x["holds"]) for x in K.compare_guards(r, p)]
+        vals = [int(n[1:]) - (1 if op == "Ge" else 0) for op, a, b, h in d if op in ("Gt", "Ge") and ".size" in a and not h for n in b if re.fullmatch(r"#\d+", n)]
+        ctx.check(R, r, "reader-bound-covers-writer", bool(vals) and min(vals) >= wmax,
+                  "the reader's frame-size bound (%s) is at least the largest batch the writer admits (%d)" % (min(vals) if vals else None, wmax),
+                  "next_header rejects frames larger than %s but the writer admits batches of up to %d bytes (check_batch_size), and a batch that starts on a block "
+                  "boundary is framed whole: an intact, acknowledged log is reported corrupt" % (min(vals) if vals else None, wmax), pt=p)
+
 
 def c125(ctx):
     R = "C12.5"
